@@ -357,8 +357,42 @@ def classify_reply(l, s, key, ev, spec_replies, obs):
     return ["C05"]
 
 
+def c15_local(events):
+    """C15 needs no model state: after every call the validated set is the one before plus the sender of a message that
+    was handed up (request, indication, delivered response), and nothing else.  Checked over the whole run, also past a
+    point where the run left the model for another reason."""
+    prev = set()
+    for i, ev in enumerate(events):
+        if "obs" not in ev or "a" not in ev:
+            return None
+        cur = set(ev["obs"]["val"])
+        want = set(prev)
+        ret = ev.get("ret", {})
+        if ev["a"] in ("recv", "client_recv") and ret.get("k") in ("incoming", "response"):
+            want.add(ev.get("from", "srv"))
+        if cur != want:
+            return Mismatch(["C15"], "step %d %s: validated peers went from %s to %s (answer %s)" % (
+                i, ev["a"], sorted(prev), sorted(cur), canon(ret)), None)
+        if "obs2" in ev and set(ev["obs2"]["val"]) != cur:
+            return Mismatch(["C15"], "step %d: a poll changed the validated peers" % i, None)
+        prev = cur
+    return None
+
+
 def follow(l, scale, transport, events, probe_after_drop_owner=True):
     """follow one observed run through the LTS.  Returns (steps_followed, nondet, Mismatch|None, truncated)"""
+    r = _follow(l, scale, transport, events)
+    if r[2] is None or "C15" not in r[2].props:
+        loc = c15_local(events)
+        if loc is not None:
+            if r[2] is None:
+                return (r[0], r[1], loc, r[3])
+            r[2].props.append("C15")
+            r[2].what += " | also: " + loc.what
+    return r
+
+
+def _follow(l, scale, transport, events):
     s = l.init
     nondet = False
     for i, ev in enumerate(events):
